@@ -71,8 +71,14 @@ func (fr *Frame) specEnv(st *State, li *loopInfo) *Env {
 	}
 	var extra []string
 	env := &Env{v: v, fr: fr, st: st, old: old, li: li, bound: map[string]specVal{}, lets: map[string]*Node{}, extra: &extra, pkg: fr.fn.Pkg.Pkg}
-	if fr.fc != nil {
-		for _, l := range fr.fc.Lets {
+	lfc := fr.fc
+	if fr.owner != nil && fr.owner != fr {
+		// a helper executed as part of a function under contract: that function's contract speaks
+		lfc = fr.owner.fc
+		env.pkg = fr.owner.fn.Pkg.Pkg
+	}
+	if lfc != nil {
+		for _, l := range lfc.Lets {
 			env.lets[l.Name] = l.Body
 		}
 	}
@@ -477,6 +483,23 @@ func (e *Env) evalIdent(n *Node) specVal {
 			if sv, ok := e.objVal(o); ok {
 				return sv
 			}
+		}
+	}
+	if e.fr != nil && e.fr.owner != nil && e.fr.owner != e.fr && e.fr.parent != nil {
+		// inside an extracted helper: the name may be a variable of the calling function (its value
+		// at the call)
+		pe := *e
+		pe.fr = e.fr.parent
+		pe.li = nil
+		pe.retBlock = e.fr.parent.curBlock
+		pe.atSite = true
+		return pe.evalIdent(n)
+	}
+	if e.fr != nil && e.fr.fn != nil {
+		if alt := v.eng.renamedTo(e.fr.fn, name); alt != "" {
+			n2 := *n
+			n2.Name = alt
+			return e.evalIdent(&n2)
 		}
 	}
 	e.fail("unknown identifier %q", name)
@@ -1088,6 +1111,21 @@ func (e *Env) evalCall(n *Node) specVal {
 				e.fail("lastarg(): literal argument index")
 			}
 			return specVal{t: v.heap(e.st, v.ghostKey(fmt.Sprintf("lastarg!%s!%d", args[0].Name, i), "Int")), typ: types.Typ[types.UnsafePointer]}
+		case "lastres":
+			// lastres(F, i): the i-th result (a pointer) of this function's latest call to F (F in `opt track`)
+			if args[0].Kind != NIdent {
+				e.fail("lastres() takes a function name")
+			}
+			i, err := strconv.Atoi(args[1].String())
+			if err != nil {
+				e.fail("lastres(): literal result index")
+			}
+			rt := types.Type(types.Typ[types.UnsafePointer])
+			if len(args) == 3 {
+				// lastres(F, i, T): typed as *T
+				rt = e.resolveType(args[2])
+			}
+			return specVal{t: v.heap(e.st, v.ghostKey(fmt.Sprintf("lastres!%s!%d", args[0].Name, i), "Int")), typ: rt, st: e.st}
 		case "transmitted":
 			// transmitted(m): message object m was handed to TransmitMessage during this call
 			x := e.eval(args[0])
@@ -1100,6 +1138,10 @@ func (e *Env) evalCall(n *Node) specVal {
 				return specVal{t: "false", typ: tBool}
 			}
 			return specVal{t: sel(v.heap(e.st, v.ghostKey("hitend", "(Array Int Bool)")), e.streamIDOf(x)), typ: tBool}
+		case "handedover":
+			// handedover(p): object p was sent on a channel earlier in this call (opt trackhandover)
+			x := e.eval(args[0])
+			return specVal{t: sel(v.heap(e.st, v.ghostKey("handed", "(Array Int Bool)")), x.t), typ: tBool}
 		case "intact":
 			// intact(r): the script reader r has not run into a malformed item yet
 			x := e.eval(args[0])
